@@ -328,6 +328,9 @@ void ApiRun::expect_rc(const char *fn, int rc, std::initializer_list<int> ok, bo
 cif_value_tp *ApiRun::make_value(const Op &o, MValue &snap, uint64_t salt) {
     Rng r(hmix(o.seed, salt));
     MValue specv = o.simple ? simple_value(o.seed) : gen_value(r, gcfg);
+    // one value in forty is a quoted string spelling a reserved word in some letter case (own PRNG stream: the draws of 'r' are not disturbed)
+    { Rng rr(hmix(hmix(o.seed, salt), hstr("reserved-word value")));
+      if (!o.simple && rr.chance(1, 40)) { static const char *const W[] = { "dAta_", "DAta_x", "dATa_1", "DATa_", "data_", "Data_q", "SAVE_", "sAve_f", "Loop_", "lOOp_", "STOP_", "sTop_", "Global_", "gLOBAL_" }; specv = MValue::chr(U(W[rr.below(14)]), true); g_stats.inc("value.reserved_word_spelling"); } }
     int rc = CIF_OK;
     cif_value_tp *v = build_value(specv, &rc);
     if (!v) violate("value_build", rc_name(rc), strprintf("could not build value %s through the public API: %s", show(specv).c_str(), rc_name(rc)));
